@@ -13,6 +13,8 @@ from concurrent.futures import ThreadPoolExecutor
 
 ROOT = os.path.dirname(os.path.dirname(os.path.abspath(__file__)))
 sys.path.insert(0, ROOT)
+if os.environ.get('VERIF_FLAX_TREE'):
+  sys.path.insert(0, os.environ['VERIF_FLAX_TREE'])
 PY = sys.executable
 
 LEVEL = {'C11': 'fault_enumeration'}
@@ -39,7 +41,11 @@ def worker_env():
   env['OPENBLAS_NUM_THREADS'] = '1'
   env['MKL_NUM_THREADS'] = '1'
   env['TF_CPP_MIN_LOG_LEVEL'] = '3'
-  env['PYTHONPATH'] = ROOT + os.pathsep + env.get('PYTHONPATH', '')
+  # VERIF_FLAX_TREE (optional, for background sweeps on a snapshot): import
+  # flax from that tree instead of the editable install of /repo
+  tree = env.get('VERIF_FLAX_TREE')
+  env['PYTHONPATH'] = os.pathsep.join(
+      ([tree] if tree else []) + [ROOT, env.get('PYTHONPATH', '')])
   env['PYTHONDONTWRITEBYTECODE'] = '1'
   env['GOOGLE_FLAX_VERIF'] = '1'
   return env
